@@ -19,11 +19,11 @@ LEVEL = "exploration"
 ME = "mc.props.C12"
 
 
-def _pair(S, fam, a, b, lam1=1, lam2=(1, 0), fe=None):
+def _pair(S, fam, a, b, lam1=1, lam2=(1, 0), fe=None, fqc=False):
     P = S.E1.mul(S.G1, a)
     Q = S.E2.mul(S.G2, b)
     lp = S.inf1(fam)[0] if P is None else S.pt1(fam, P, lam1)
-    lq = S.inf2(fam)[0] if Q is None else S.pt2(fam, Q, tuple(lam2))
+    lq = S.inf2(fam)[0] if Q is None else S.pt2(fam, Q, tuple(lam2), fqc)
     if fe is None:
         o = PL.call(S.pair(fam).pairing, lq, lp)
     else:
@@ -87,9 +87,11 @@ def _split_eval(S, fam, pairs, ms):
     Pm = S.pair(fam)
     F = S.F12
     mill, one_shot = {}, {}
+    reps = [(1, (1, 0), False), (2, (0, 2), False), (1, (1, 0), True), (S.p - 1, (3, 1), True)]
     for i in set(ms):
         a, b = pairs[i]
-        o = _pair(S, fam, a, b, fe=False)
+        l1, l2, fqc = reps[i % len(reps)]
+        o = _pair(S, fam, a, b, l1, l2, fe=False, fqc=fqc)
         if o[0] != "ok":
             return "miller value computes", o, None
         mill[i] = o[1]
@@ -117,8 +119,12 @@ def task_split(a, env):
     F = S.F12
     # cache Miller values and one-shot values for the alphabet
     mill, shot = [], []
-    for (av, bv) in pairs:
-        o = _pair(S, fam, av, bv, fe=False)
+    # the raw Miller values come from varying representatives of the same points (plain, scaled,
+    # FQ-object coefficients) - the one-shot values from the plain ones
+    reps = [(1, (1, 0), False), (2, (0, 2), False), (1, (1, 0), True), (S.p - 1, (3, 1), True)]
+    for pi, (av, bv) in enumerate(pairs):
+        l1, l2, fqc = reps[pi % len(reps)]
+        o = _pair(S, fam, av, bv, l1, l2, fe=False, fqc=fqc)
         s = _co(S, _pair(S, fam, av, bv))
         if o[0] != "ok" or not (isinstance(s, tuple) and len(s) == 12):
             r.ev += 1
